@@ -312,19 +312,34 @@ fn sig_for(stage: &str, lit: &str, refv: Option<&Vec<PhView>>) -> Option<String>
         }
     }
     if stage == "A" && lit.contains('.') {
-        // empty precision (`{:.}`, `{:.x}`): deleting the dots that carry no precision makes the parsers agree
-        let dots: Vec<usize> = lit.char_indices().filter(|(_, c)| *c == '.').map(|(i, _)| i).collect();
-        if dots.len() <= 6 {
-            for mask in 1u32..(1 << dots.len()) {
-                let cand: String = lit
-                    .char_indices()
-                    .filter(|(i, _)| !dots.iter().enumerate().any(|(k, d)| d == i && mask & (1 << k) != 0))
-                    .map(|(_, c)| c)
-                    .collect();
-                if let (Some(dv), Some(rv)) = (dm::guarded(|| dm_view(&cand)).ok().flatten(), refv) {
-                    if dv.len() == rv.len() && dv.iter().zip(rv).all(|(a, b)| a.same_as(b)) {
-                        return Some("c03-empty-precision".into());
-                    }
+        // empty precision (`{:.}`, `{:.x}`, `{:5.}`): deleting exactly the dots that are followed by an optional type
+        // and the end of the placeholder makes the parsers agree
+        let chars: Vec<char> = lit.chars().collect();
+        let mut cand = String::new();
+        let mut removed = 0;
+        for (i, c) in chars.iter().enumerate() {
+            if *c == '.' {
+                let mut k = i + 1;
+                // optional type: `x?`, `X?`, `?`, or one of o x X p b e E
+                if k + 1 < chars.len() && (chars[k] == 'x' || chars[k] == 'X') && chars[k + 1] == '?' {
+                    k += 2;
+                } else if k < chars.len() && "?oxXpbeE".contains(chars[k]) {
+                    k += 1;
+                }
+                while k < chars.len() && chars[k].is_whitespace() {
+                    k += 1;
+                }
+                if k < chars.len() && chars[k] == '}' {
+                    removed += 1;
+                    continue;
+                }
+            }
+            cand.push(*c);
+        }
+        if removed > 0 {
+            if let (Some(dv), Some(rv)) = (dm::guarded(|| dm_view(&cand)).ok().flatten(), refv) {
+                if dv.len() == rv.len() && dv.iter().zip(rv).all(|(a, b)| a.same_as(b)) {
+                    return Some("c03-empty-precision".into());
                 }
             }
         }
